@@ -251,7 +251,9 @@ func (t *Table) addGlobalIndex(gsiInput *types.GlobalSecondaryIndex) error {
 }
 
 func (t *Table) deleteIndex(indexName string) error {
-	if _, ok := t.Indexes[indexName]; !ok {
+	i, ok := t.Indexes[indexName]
+	if !ok || i.typ != indexTypeGlobal {
+		// a local secondary index lives as long as its table: it is no global secondary index to delete
 		return types.NewError("ResourceNotFoundException", "Requested resource not found", nil)
 	}
 
